@@ -984,7 +984,10 @@ def run_check(prop, tier, replay, t0):
         rc = 1
     dstates = sum(d["states"] for d in design)
     ddist = sum(d["distinct"] for d in design)
+    by_kind = {k: dict(events=v[0], ok=v[1], skipped_out_of_domain=v[2], rejected=v[0] - v[1] - v[2])
+               for k, v in sorted(getattr(total, "by_event", {}).items())}
     cov = dict(
+        family_by_event_kind=by_kind,
         states=max(1, total.distinct + ddist), transitions=max(1, total.states + dstates),
         traces_validated_against_impl=total.traces,
         evaluations=mine[0], distinct_nontrivial=len(mine[3]), rule=chk["rule"],
